@@ -307,7 +307,7 @@ def run_keys(sess, text, cur, opname, mname, c1, c2):
     obs = sess.observe(status)
     tobj = sess.captured
     alone = None
-    if m["move"] and not (mname in ("G", "0") and (c1 or 1) * (c2 or 1) > 1):
+    if m["move"] and not (mname in ("G", "0") and (c1 or 1) * (c2 or 1) > 1) and nav_fix(text, cur) == cur:
         sess.reset(text, cur, last_find)
         try:
             with_watchdog(lambda: sess.feed(digits((c1 or 1) * (c2 or 1)) + m["keys"]), WATCHDOG[0])
@@ -370,10 +370,11 @@ def run_session(sess, text, cur, cmds):
             m = MOTIONS[end]
             n = (c1 or 1) * (c2 or 1)
             try:
+                ce = eff_cursor(pre_t, pre_c, c1)
                 if end == "%" and not (c1 or c2):
-                    failed = Document(pre_t, pre_c).find_matching_bracket_position() == 0
+                    failed = Document(pre_t, ce).find_matching_bracket_position() == 0
                 else:
-                    failed = bool(m["failed"](Document(pre_t, pre_c), n))
+                    failed = bool(m["failed"](Document(pre_t, ce), n))
             except AssertionError:
                 failed = False
             if m["tok"] is None:
@@ -469,28 +470,26 @@ def oracle(text, cur, opname, m, n, obs, tobj, failed, alone):
     elif obs["reg"] is not None:
         return ("operator without register wrote a named register", "register-clipboard")
     data = (obs["reg"][1] if obs["reg"] is not None else None) if with_reg else obs["clip"]
-    if cls == "yank" and (t1 != text or c1 != cur):
+    # (the cursor "stays" up to the navigation-mode fix-up that runs after every key: a cursor after
+    # the last character of a non-empty line - temporary navigation mode, programmatic documents -
+    # moves onto that character)
+    cur_kept = nav_fix(text, cur) if m is not None else cur
+    if cls == "yank" and (t1 != text or c1 != cur_kept):
         return ("yank changed text or cursor", "yank-edits:" + grp)
     if failed and not (m and m["name"] in NO_FAIL_DEMAND):
-        if t1 != text or c1 != cur or obs["clip"] is not None or obs["reg"] is not None:
+        if t1 != text or c1 != cur_kept or obs["clip"] is not None or obs["reg"] is not None:
             return ("the motion fails or spans nothing, yet the operator changed %s" % (
-                "text" if t1 != text else "cursor" if c1 != cur else "a register"), "failed:" + grp)
+                "text" if t1 != text else "cursor" if c1 != cur_kept else "a register"), "failed:" + grp)
+        if m is not None and (obs["ins"] or obs.get("pending")):
+            return ("the motion fails or spans nothing, yet the operator %s" % (
+                "entered insert mode" if obs["ins"] else "stayed pending"), "failed:" + grp)
         return None
     if tobj is None:
+        if m is not None and m["name"] not in ("n", "N") and m["name"] not in NO_FAIL_DEMAND:
+            return ("the motion did not fail, yet the operator was cancelled (no text object reached it)", "wrongly-cancelled:" + grp)
         return None
     s, e, ty = tobj
     lo, hi = cur + min(s, e), cur + max(s, e) + (1 if ty == 1 else 0)
-    if ty == 0 and hi - lo == 1 and 0 <= lo < len(text) and text[lo] == "\n" and cls in ("delete", "change", "yank"):
-        # an exclusive span that is exactly one line ending: the exclusive-column-0 rule may
-        # empty it; accepted outcomes: nothing happens, or exactly the line ending is removed
-        d0 = obs["reg"][1] if (with_reg and obs["reg"] is not None) else obs["clip"]
-        if t1 == text and d0 is None:
-            return None
-        if cls != "yank" and t1 == text[:lo] + text[hi:] and d0 is not None and unS(d0[0]) == "\n":
-            return None
-        if cls == "yank" and d0 is not None and unS(d0[0]) == "\n":
-            return None
-        return ("the span is exactly one line ending, yet the operator changed other characters or stored other text", "col0-collapse:" + grp)
     if m and m["move"] and alone is not None:
         if alone < 0:
             return ("the motion typed alone raised or edited the text", "motion-alone:" + grp)
@@ -503,7 +502,38 @@ def oracle(text, cur, opname, m, n, obs, tobj, failed, alone):
     incl_nl = ty == 1 and 0 < hi <= len(text) and text[hi - 1] == "\n"
     if ty == 3:
         return None   # block objects are not produced in navigation mode; model correspondence only
-    if cls in ("delete", "change"):
+    if cls in ("delete", "change") and 0 <= lo and hi <= len(text) and ty in (0, 1, 2):
+        # exactly the span: text[a:e] with the exclusive-column-0 rule / whole lines
+        if linewise:
+            a = text.rfind("\n", 0, lo) + 1
+            p_ = text.find("\n", hi)
+            e_ = p_ + 1 if p_ >= 0 else len(text)
+            removed = text[a:e_]
+            exp, et = (removed[:-1] if removed.endswith("\n") else removed), 1
+        else:
+            a, e_ = lo, hi
+            if ty == 0 and lo < hi and text[hi - 1] == "\n":
+                e_ = hi - 1            # far end in column 0: the line ending before it stays
+            if e_ < a:
+                e_ = a
+            exp, et = text[a:e_], 0
+        if a == e_:
+            if t1 != text or (data is not None and unS(data[0]) != ""):
+                return ("the span is empty (after the column-0 rule), yet the operator changed the text or a register", "delete-span:" + grp)
+        else:
+            if t1 != text[:a] + text[e_:]:
+                return ("delete/change did not remove exactly the span %d..%d of the text object%s" % (
+                    a, e_, " (whole lines)" if linewise else ""), "delete-span:" + grp)
+            if exp != "" and (data is None or unS(data[0]) != exp or data[1] != et):
+                if with_reg and obs["reg"] is None:
+                    return ("delete/change into a named register: the removed text was not stored in the typed register", "named-register:" + grp)
+                return ("register does not hold exactly the removed characters with the right type", "delete-span:" + grp)
+            if exp == "" and data is not None and unS(data[0]) != "":
+                return ("nothing to store but a register was written", "delete-span:" + grp)
+            want_c = a if obs["ins"] else nav_fix(t1, a)
+            if m is not None and c1 != want_c:
+                return ("after delete/change the cursor is at %d, not at the start of the removed span (%d)" % (c1, want_c), "delete-cursor:" + grp)
+    elif cls in ("delete", "change"):
         k = len(text) - len(t1)
         if k < 0:
             return ("delete made the text longer", "delete-grows:" + grp)
@@ -579,6 +609,17 @@ def oracle(text, cur, opname, m, n, obs, tobj, failed, alone):
 # --------------------------------------------------------------------------
 # cases
 
+def eff_cursor(text, cur, c1):
+    """the cursor the command really starts from: a count typed before the operator is handled in
+    navigation mode, and every navigation-mode handler ends with the cursor fix-up"""
+    return nav_fix(text, cur) if c1 else cur
+
+
+def eol_cursors(text):
+    """cursor positions after the last character of a non-empty line"""
+    return [c for c in range(len(text) + 1) if nav_fix(text, c) != c]
+
+
 def nav_cursors(text):
     """cursor positions reachable in navigation mode: on a character that is not a
     line ending, or on an empty line"""
@@ -649,6 +690,31 @@ def gen_cases(chk):
                         if rng.random() < p_o:
                             cases.append(key_case(t, cur, on, mn, c1, c2))
                             dist["exhaustive_other_ops"] += 1
+    # cursors after the last character of a non-empty line (temporary navigation mode, documents
+    # set by program): every handler ends with the cursor fix-up, also a cancelled operator
+    p_eol = 0.1 if thorough else 0.012
+    for t in texts:
+        if len(t) > 3:
+            continue
+        for cur in eol_cursors(t):
+            for mn in mnames:
+                for (c1, c2) in ((None, None), (2, None)):
+                    for on in OP_ORDER:
+                        if rng.random() < p_eol:
+                            cases.append(key_case(t, cur, on, mn, c1, c2))
+                            dist["end_of_line_cursors"] = dist.get("end_of_line_cursors", 0) + 1
+    for _ in range(5000 if thorough else 600):
+        t = rand_text(rng, 16)
+        ec = eol_cursors(t)
+        if not ec:
+            continue
+        cmds = []
+        if rng.random() < 0.4:
+            cmds.append((rng.choice([None, 3]), rng.choice(OP_ORDER), None, rng.choice(["esc", "f-esc"])))
+        kc = key_case(t, 0, rng.choice(OP_ORDER), rng.choice([k for k, v in MOTIONS.items() if v["group"] != "char-find-repeat"]), *rng.choice(COUNTS_Q))
+        cmds.append((kc[5], kc[3], kc[6], kc[4]))
+        cases.append(("S", t, rng.choice(ec), cmds))
+        dist["end_of_line_cursors"] = dist.get("end_of_line_cursors", 0) + 1
     nrand = 30000 if thorough else 4000
     for _ in range(nrand):
         t = rand_text(rng, 24)
@@ -802,10 +868,11 @@ def run_impl1(sess, case):
         n = (c1 or 1) * (c2 or 1)
         obs, tobj, alone = run_keys(sess, text, cur, opname, mname, c1, c2)
         try:
+            ce = eff_cursor(text, cur, c1)
             if mname == "%" and not (c1 or c2):
-                failed = Document(text, cur).find_matching_bracket_position() == 0
+                failed = Document(text, ce).find_matching_bracket_position() == 0
             else:
-                failed = bool(m["failed"](Document(text, cur), n))
+                failed = bool(m["failed"](Document(text, ce), n))
         except AssertionError:
             failed = False
         if m["tok"] is None:
@@ -827,11 +894,12 @@ def oracle_session(recs):
     for (cmd, pre_t, pre_c, o, tobj, failed) in recs:
         c1, opname, c2, end = cmd
         if end in ("esc", "f-esc"):
-            if o["status"] != 0 or o["text"] != pre_t or o["cursor"] != pre_c or o["clip"] is not None or o["reg"] is not None or o["pending"]:
+            if o["status"] != 0 or o["text"] != pre_t or o["cursor"] != nav_fix(pre_t, pre_c) or o["clip"] is not None or o["reg"] is not None or o["pending"]:
                 return ("an operator cancelled with Escape changed the text, the cursor or a register, or stayed pending", "cancelled-operator", "cut")
             continue
         if not opname:
             continue
+        pre_c = eff_cursor(pre_t, pre_c, c1)
         bad = oracle(pre_t, pre_c, opname, MOTIONS[end], (c1 or 1) * (c2 or 1), o, tobj, failed, None)
         if bad is None and o["status"] == 0:
             bad = oracle_word_object(pre_t, pre_c, end, tobj)
@@ -1064,14 +1132,15 @@ def judge(c, obs, tobj, failed, alone):
     if c[0] == "K":
         m = MOTIONS[c[4]]
         n = (c[5] or 1) * (c[6] or 1)
-        bad = oracle(c[1], c[2], c[3], m, n, obs, tobj, failed, alone)
+        ce = eff_cursor(c[1], c[2], c[5])
+        bad = oracle(c[1], ce, c[3], m, n, obs, tobj, failed, alone)
         if bad is None and tobj is not None and m["move"] and c[4] not in ("G", "0") and obs["status"] == 0:
-            exp = expected_start(c[1], c[2], c[4], n, bool(c[5] or c[6]))
+            exp = expected_start(c[1], ce, c[4], n, bool(c[5] or c[6]))
             if exp is not None and exp != tobj[0]:
                 bad = ("the operator was applied to a text object starting at %+d, but <count x count> %s from here starts at %+d" % (
                     tobj[0], c[4], exp), "operator-count:" + m["group"])
         if bad is None and obs["status"] == 0:
-            bad = oracle_word_object(c[1], c[2], c[4], tobj)
+            bad = oracle_word_object(c[1], ce, c[4], tobj)
     else:
         bad = oracle(c[1], c[2], c[3], None, c[5], obs, tobj, obj_failed(c), None) if in_bounds(c) else None
     return (bad[0], bad[1], OPGROUP[OPS[c[3]][2]]) if bad else None
